@@ -119,6 +119,22 @@ pub fn check_point(m: &GenModel, sol: &Sol, x: &[f64], out: &mut Vec<Finding>) {
             ),
         ));
     }
+    for ((name, v), looked_up) in sol.assignment.iter().zip(&sol.lookups) {
+        match looked_up {
+            None => out.push(f(
+                "lookup-by-name",
+                format!("value_of(`{name}`) is None although the assignment lists it"),
+            )),
+            Some(l) => {
+                if l.to_bits() != v.to_bits() && (l - v).abs() > 0.0 {
+                    out.push(f(
+                        "lookup-by-name",
+                        format!("value_of(`{name}`) = {l} but the assignment says {v}"),
+                    ));
+                }
+            }
+        }
+    }
     if let Some(hv) = &sol.handle_values {
         for (i, h) in hv.iter().enumerate() {
             match h {
